@@ -2624,6 +2624,21 @@ impl BytecodeVM {
                     ));
                 }
 
+                // OrdinaryHasInstance step 2: a bound function stands for its target
+                let mut right_obj = right_obj.cheap_clone();
+                loop {
+                    let target = match &right_obj.borrow().exotic {
+                        ExoticObject::Function(JsFunction::Bound(bound)) => {
+                            Some(bound.target.cheap_clone())
+                        }
+                        _ => None,
+                    };
+                    match target {
+                        Some(t) => right_obj = t,
+                        None => break,
+                    }
+                }
+
                 // Get right.prototype
                 let proto_key = PropertyKey::String(interp.intern("prototype"));
                 let right_proto = right_obj.borrow().get_property(&proto_key);
@@ -3224,7 +3239,30 @@ impl BytecodeVM {
                 for i in 0..argc {
                     args.push(self.get_reg(args_start + i).clone());
                 }
-                let callee_val = self.get_reg(callee).clone();
+                let mut callee_val = self.get_reg(callee).clone();
+
+                // `new` on a bound function constructs its target with the bound arguments
+                // in front (the target is also new.target and supplies the prototype)
+                loop {
+                    let unwrapped = match &callee_val {
+                        JsValue::Object(obj) => match &obj.borrow().exotic {
+                            ExoticObject::Function(JsFunction::Bound(bound)) => Some((
+                                JsValue::Object(bound.target.cheap_clone()),
+                                bound.bound_args.clone(),
+                            )),
+                            _ => None,
+                        },
+                        _ => None,
+                    };
+                    match unwrapped {
+                        Some((target, mut bound_args)) => {
+                            bound_args.append(&mut args);
+                            args = bound_args;
+                            callee_val = target;
+                        }
+                        None => break,
+                    }
+                }
 
                 // Inline constructor call logic (similar to evaluate_new)
                 let JsValue::Object(ctor) = &callee_val else {
